@@ -15,7 +15,7 @@ from . import builtins as bi
 from . import smt
 from .engine import Contract, Engine, OutOfSubset, State, parse_spec
 from .extract import DROPPED, RepoIndex, fn_hash, repo_root
-from .types import B, I, R, V, atom_name, is_ref, parse_type, rec_fields, sort_of, sort_tag, strip_opt, vint
+from .types import B, I, R, V, atom_name, is_ref, parse_type, rec_fields, sort_of, sort_tag, stag, strip_opt, vint
 
 VERIF = os.path.dirname(os.path.dirname(os.path.abspath(__file__)))
 
@@ -77,7 +77,7 @@ def cex_template(E, ob):
         if t[0] == "list" and t[1] is not None:
             ln = snap.heap.get("len", I).read(v.z)
             s = sort_of(t[1])
-            arr = snap.heap.get("el." + sort_tag(s), z3.ArraySort(I, s)).read(v.z)
+            arr = snap.heap.get("el." + stag(t[1]), z3.ArraySort(I, s)).read(v.z)
             items = [tmpl(V(strip_opt(t[1]), arr[k]), t[1], depth - 1) for k in range(5)]
             return {"$": "list", "ref": ph(v.z), "len": ph(ln), "items": items}
         if t[0] == "rec":
@@ -95,7 +95,7 @@ def cex_template(E, ob):
 
     def read_field(v, pre, fname, ft):
         s = sort_of(ft)
-        name = f"{pre}.{fname}.{sort_tag(s)}"
+        name = f"{pre}.{fname}.{stag(ft)}"
         z = snap.heap.get(name, s).read(v.z)
         none = None
         if isinstance(ft, tuple) and ft[0] == "opt" and strip_opt(ft) in ("int", "real", "bool"):
@@ -163,6 +163,7 @@ class Runner:
         self.problems = []  # undecided / checker errors
         self.violations = []
         self.trivial = []
+        self.canaries = 0
 
     def hints_for(self, E, ob):
         """lemma instances requested by the contract's `use` entries whose scope matches the obligation"""
@@ -289,9 +290,14 @@ class Runner:
                 WORK.append(("ob", self, E, ob))
             for oid, where in getattr(E, "trivial_ids", []):
                 self.trivial.append({"id": oid, "where": where, "status": "discharged", "subgoals": 1, "backends": ["z3/simplifier"], "solver_s": 0.0})
-            ens = [ob for ob in obs if ob.kind in ("ensures", "raises-when", "raises-ensures", "no-raise", "inv-preserved")]
-            if ens:
-                WORK.append(("canary", self, E, ens[0]))
+            # vacuity canary: the final path condition of EVERY explored path must not be refutable (an invariant that
+            # contradicts the frame, or a contradictory precondition, would make everything after it vacuously true)
+            last = {}
+            for ob in obs:
+                if ob.kind != "lemma":
+                    last[tuple(ob.env.get("trail", []))] = ob
+            for ob in last.values():
+                WORK.append(("canary", self, E, ob))
         # workers are forked AFTER generation: they inherit the z3 terms and build + solve their obligations in-process
         from .forkpool import run_forked
 
@@ -299,8 +305,9 @@ class Runner:
         obligations = []
         for (kind, _, E, ob), r in zip(WORK, res):
             if kind == "canary":
-                if r["verdict"] == "unsat":
-                    self.problems.append({"function": E.c.qual, "kind": "vacuity", "detail": "canary: the path condition of a checked path is contradictory"})
+                self.canaries += 1
+                if r.get("verdict") == "unsat":
+                    self.problems.append({"function": E.c.qual, "kind": "vacuity", "detail": f"canary: the path condition of path {ob.env.get('trail')} (up to {ob.id} {ob.where}) is contradictory"})
                 continue
             if r.get("killed"):
                 self.problems.append({"function": ob.id, "where": ob.where, "kind": "unknown", "detail": f"solver killed after {r['secs']}s (hard budget)"})
@@ -348,6 +355,9 @@ class Runner:
         cm, prop = self.cm, self.prop
         outdir = os.path.join(VERIF, "out", prop)
         os.makedirs(outdir, exist_ok=True)
+        for old in os.listdir(outdir):
+            if old.endswith(".json"):
+                os.unlink(os.path.join(outdir, old))
         known = load_known_findings(prop)
         lines = []
         nviol = 0
@@ -369,6 +379,7 @@ class Runner:
                 "solver": v["result"]["detail"],
                 "verdict": v["result"]["verdict"],
                 "failed_subgoal": v["goal"],
+                "path_trail(line-offset:choice)": v["ob"].env.get("trail"),
                 "inputs": inputs,
                 "repo": repo_root(),
             }
@@ -407,6 +418,7 @@ class Runner:
                 "solver_seconds": round(sum(o["solver_s"] for o in self.obligations), 2),
                 "backends": sorted({b for o in self.obligations for b in o["backends"]}),
                 "samples": [{"id": o["id"], "status": o["status"], "backends": o["backends"]} for o in self.obligations[:6]],
+                "vacuity_canaries_checked": self.canaries,
                 "dropped_by_extraction": DROPPED,
                 "not_decided": list(getattr(cm, "NOT_DECIDED", [])),
                 "bounded": list(getattr(cm, "BOUNDED", [])),
